@@ -1,2 +1,144 @@
-//! Facade fragment "nts" (see mod.rs): re-exports / wrappers the simulator needs
-//! from crate::nts-related code. Owned by the world that uses it.
+//! Facade fragment "nts" (see mod.rs): plain-data mirrors of the NTS-KE record /
+//! request / response types plus wrappers the W3 key-exchange world needs.
+//! Owned by world w3 (`/verif/sim/worlds/w3_ke`).
+//!
+//! The NTS-KE message types (`NtsRecord`, `Request`, `KeyExchangeResponse`, ...) live
+//! in private modules of `crate::nts` and mention the private `NextProtocol` enum, so
+//! they cannot be named from outside the crate. The simulator therefore works with the
+//! plain-data mirrors below; the lossless conversions and every call into the real
+//! parser / serialiser are in the probe child module
+//! (`/verif/hooks/ntp_proto/nts_probe.rs`, `impl Nts { .. }`).
+
+use crate::keyset::{DecodedServerCookie, KeySet};
+use crate::nts::{AeadAlgorithm, KeyExchangeResult};
+use crate::packet::{AesSivCmac256, AesSivCmac512, Cipher};
+use crate::source::ProtocolVersion;
+
+/// Anchor type for the in-crate API (inherent methods are implemented by the probe
+/// child module of `crate::nts`, which can see the private message types).
+pub struct Nts;
+
+/// Plain-data mirror of `nts::record::NtsRecord` (ids as raw u16).
+#[derive(Clone, Debug, PartialEq, Eq, Hash)]
+pub enum Rec {
+    EndOfMessage,
+    NextProtocol(Vec<u16>),
+    Error(u16),
+    Warning(u16),
+    AeadAlgorithm(Vec<u16>),
+    NewCookie(Vec<u8>),
+    Server(String),
+    Port(u16),
+    Unknown { record_type: u16, critical: bool, data: Vec<u8> },
+    KeepAlive,
+    SupportedNextProtocolList(Vec<u16>),
+    /// (algorithm id, key size)
+    SupportedAlgorithmList(Vec<(u16, u16)>),
+    FixedKeyRequest { c2s: Vec<u8>, s2c: Vec<u8> },
+    NtpServerDeny(String),
+    Authentication(String),
+}
+
+/// Plain-data mirror of `nts::messages::Request`.
+#[derive(Clone, Debug, PartialEq, Eq)]
+pub enum Req {
+    KeyExchange {
+        algorithms: Vec<u16>,
+        protocols: Vec<u16>,
+        denied_servers: Vec<String>,
+    },
+    FixedKey {
+        authentication: String,
+        c2s: Vec<u8>,
+        s2c: Vec<u8>,
+        algorithm: u16,
+        protocol: u16,
+        keep_alive: bool,
+    },
+    Support {
+        authentication: String,
+        wants_protocols: bool,
+        wants_algorithms: bool,
+        keep_alive: bool,
+    },
+}
+
+/// Plain-data mirror of `nts::messages::KeyExchangeResponse`.
+#[derive(Clone, Debug, PartialEq, Eq)]
+pub struct Resp {
+    pub protocol: u16,
+    pub algorithm: u16,
+    pub cookies: Vec<Vec<u8>>,
+    pub server: Option<String>,
+    pub port: Option<u16>,
+    pub keep_alive: bool,
+}
+
+/// What a client obtained from a key exchange (keys and cookies as raw bytes; the
+/// simulator must never log them: they derive from unseeded TLS randomness).
+pub struct ResultView {
+    pub remote: String,
+    pub port: u16,
+    /// 4 or 5
+    pub ntp_version: u8,
+    pub protocol_version: ProtocolVersion,
+    pub c2s: Vec<u8>,
+    pub s2c: Vec<u8>,
+    pub cookies: Vec<Vec<u8>>,
+}
+
+/// Take a `KeyExchangeResult` apart (drains the cookie stash in FIFO order).
+pub fn result_view(mut r: KeyExchangeResult) -> ResultView {
+    let mut cookies = vec![];
+    while let Some(c) = r.nts.cookies.get() {
+        cookies.push(c);
+    }
+    ResultView {
+        remote: r.remote,
+        port: r.port,
+        ntp_version: match r.protocol_version {
+            ProtocolVersion::V4 | ProtocolVersion::V4UpgradingToV5 { .. } => 4,
+            ProtocolVersion::UpgradedToV5 | ProtocolVersion::V5 => 5,
+        },
+        protocol_version: r.protocol_version,
+        c2s: r.nts.c2s.key_bytes().to_vec(),
+        s2c: r.nts.s2c.key_bytes().to_vec(),
+        cookies,
+    }
+}
+
+/// A server cookie opened with the server's key set.
+pub struct CookieView {
+    pub algorithm: u16,
+    pub c2s: Vec<u8>,
+    pub s2c: Vec<u8>,
+}
+
+/// Wraps the `pub(crate)` `KeySet::decode_cookie`.
+pub fn decode_cookie(keyset: &KeySet, cookie: &[u8]) -> Option<CookieView> {
+    let d = keyset.decode_cookie(cookie).ok()?;
+    Some(CookieView {
+        algorithm: u16::from(d.algorithm),
+        c2s: d.c2s.key_bytes().to_vec(),
+        s2c: d.s2c.key_bytes().to_vec(),
+    })
+}
+
+pub(crate) fn cipher_from_bytes(algorithm: u16, key: &[u8]) -> Option<Box<dyn Cipher>> {
+    match AeadAlgorithm::from(algorithm) {
+        AeadAlgorithm::AeadAesSivCmac256 => Some(Box::new(AesSivCmac256::try_from(key).ok()?)),
+        AeadAlgorithm::AeadAesSivCmac512 => Some(Box::new(AesSivCmac512::try_from(key).ok()?)),
+        AeadAlgorithm::Unknown(_) => None,
+    }
+}
+
+/// Wraps the `pub(crate)` `KeySet::encode_cookie` (used to build realistic corpus
+/// messages for the C30 enumeration). `None` if the key sizes do not fit the algorithm.
+pub fn encode_cookie(keyset: &KeySet, algorithm: u16, c2s: &[u8], s2c: &[u8]) -> Option<Vec<u8>> {
+    let cookie = DecodedServerCookie {
+        algorithm: AeadAlgorithm::from(algorithm),
+        s2c: cipher_from_bytes(algorithm, s2c)?,
+        c2s: cipher_from_bytes(algorithm, c2s)?,
+    };
+    Some(keyset.encode_cookie(&cookie))
+}
